@@ -109,113 +109,153 @@ func copyInto(dst, src reflect.Value, memo map[unsafe.Pointer]reflect.Value) {
 // path of the first difference. Normalisations: a nil slice equals an empty one, fields named XMLName
 // of type xml.Name are ignored, Text.Space is ignored when both contents are empty.
 func DeepEqualNorm(a, b interface{}) string {
-	return diff(reflect.ValueOf(a), reflect.ValueOf(b), "")
+	va, vb := reflect.ValueOf(a), reflect.ValueOf(b)
+	// equality is the common case: decide it without building paths, describe a difference in a second pass
+	if differ(false).diff(va, vb, "") == "" {
+		return ""
+	}
+	if d := differ(true).diff(va, vb, ""); d != "" {
+		return d
+	}
+	return "(difference without a path)"
 }
 
-func diff(a, b reflect.Value, path string) string {
+// differ(true) tracks the path of the difference, differ(false) only reports "!".
+type differ bool
+
+func (t differ) sub(path, seg string) string {
+	if !t {
+		return ""
+	}
+	return path + seg
+}
+
+func (t differ) idx(path string, i interface{}) string {
+	if !t {
+		return ""
+	}
+	return fmt.Sprintf("%s[%v]", path, i)
+}
+
+func (t differ) say(path, format string, a ...interface{}) string {
+	if !t {
+		return "!"
+	}
+	return path + ": " + fmt.Sprintf(format, a...)
+}
+
+type fieldMeta struct {
+	name string
+	skip bool // XMLName
+}
+
+var metaCache = map[reflect.Type][]fieldMeta{}
+
+func metaOf(t reflect.Type) []fieldMeta {
+	if m, ok := metaCache[t]; ok {
+		return m
+	}
+	m := make([]fieldMeta, t.NumField())
+	for i := range m {
+		f := t.Field(i)
+		m[i] = fieldMeta{name: f.Name, skip: f.Name == "XMLName" && f.Type == xmlNameType}
+	}
+	metaCache[t] = m
+	return m
+}
+
+func (t differ) diff(a, b reflect.Value, path string) string {
 	if a.IsValid() != b.IsValid() {
-		return path + ": one side is absent"
+		return t.say(path, "one side is absent")
 	}
 	if !a.IsValid() {
 		return ""
 	}
 	if a.Type() != b.Type() {
-		return fmt.Sprintf("%s: type %s vs %s", path, a.Type(), b.Type())
+		return t.say(path, "type %s vs %s", a.Type(), b.Type())
 	}
 	switch a.Kind() {
-	case reflect.Ptr:
+	case reflect.Ptr, reflect.Interface:
 		if a.IsNil() || b.IsNil() {
 			if a.IsNil() != b.IsNil() {
-				return fmt.Sprintf("%s: nil=%v vs nil=%v", path, a.IsNil(), b.IsNil())
+				return t.say(path, "nil=%v vs nil=%v", a.IsNil(), b.IsNil())
 			}
 			return ""
 		}
-		return diff(a.Elem(), b.Elem(), path)
-	case reflect.Interface:
-		if a.IsNil() || b.IsNil() {
-			if a.IsNil() != b.IsNil() {
-				return fmt.Sprintf("%s: nil=%v vs nil=%v", path, a.IsNil(), b.IsNil())
-			}
-			return ""
-		}
-		return diff(a.Elem(), b.Elem(), path)
+		return t.diff(a.Elem(), b.Elem(), path)
 	case reflect.Slice, reflect.Array:
 		if a.Len() != b.Len() {
-			return fmt.Sprintf("%s: length %d vs %d", path, a.Len(), b.Len())
+			return t.say(path, "length %d vs %d", a.Len(), b.Len())
 		}
 		for i := 0; i < a.Len(); i++ {
-			if d := diff(a.Index(i), b.Index(i), fmt.Sprintf("%s[%d]", path, i)); d != "" {
+			if d := t.diff(a.Index(i), b.Index(i), t.idx(path, i)); d != "" {
 				return d
 			}
 		}
 		return ""
 	case reflect.Struct:
-		t := a.Type()
+		ty := a.Type()
 		if !a.CanAddr() {
-			c := reflect.New(t).Elem()
+			c := reflect.New(ty).Elem()
 			c.Set(a)
 			a = c
 		}
 		if !b.CanAddr() {
-			c := reflect.New(t).Elem()
+			c := reflect.New(ty).Elem()
 			c.Set(b)
 			b = c
 		}
 		skipSpace := false
-		if t == textType {
+		if ty == textType {
 			skipSpace = a.FieldByName("Content").String() == "" && b.FieldByName("Content").String() == ""
 		}
-		for i := 0; i < t.NumField(); i++ {
-			f := t.Field(i)
-			if f.Name == "XMLName" && f.Type == xmlNameType {
+		for i, f := range metaOf(ty) {
+			if f.skip || (skipSpace && f.name == "Space") {
 				continue
 			}
-			if skipSpace && f.Name == "Space" {
-				continue
-			}
-			if d := diff(field(a, i), field(b, i), path+"."+f.Name); d != "" {
+			if d := t.diff(field(a, i), field(b, i), t.sub(path, "."+f.name)); d != "" {
 				return d
 			}
 		}
 		return ""
 	case reflect.Map:
 		if a.Len() != b.Len() {
-			return fmt.Sprintf("%s: map size %d vs %d", path, a.Len(), b.Len())
+			return t.say(path, "map size %d vs %d", a.Len(), b.Len())
 		}
 		it := a.MapRange()
 		for it.Next() {
 			bv := b.MapIndex(it.Key())
 			if !bv.IsValid() {
-				return fmt.Sprintf("%s: key %v missing", path, it.Key())
+				return t.say(path, "key %v missing", it.Key())
 			}
-			if d := diff(it.Value(), bv, fmt.Sprintf("%s[%v]", path, it.Key())); d != "" {
+			if d := t.diff(it.Value(), bv, t.idx(path, it.Key())); d != "" {
 				return d
 			}
 		}
 		return ""
 	case reflect.String:
 		if a.String() != b.String() {
-			return fmt.Sprintf("%s: %q vs %q", path, clip(a.String()), clip(b.String()))
+			return t.say(path, "%q vs %q", clip(a.String()), clip(b.String()))
 		}
 	case reflect.Bool:
 		if a.Bool() != b.Bool() {
-			return fmt.Sprintf("%s: %v vs %v", path, a.Bool(), b.Bool())
+			return t.say(path, "%v vs %v", a.Bool(), b.Bool())
 		}
 	case reflect.Int, reflect.Int8, reflect.Int16, reflect.Int32, reflect.Int64:
 		if a.Int() != b.Int() {
-			return fmt.Sprintf("%s: %d vs %d", path, a.Int(), b.Int())
+			return t.say(path, "%d vs %d", a.Int(), b.Int())
 		}
 	case reflect.Uint, reflect.Uint8, reflect.Uint16, reflect.Uint32, reflect.Uint64, reflect.Uintptr:
 		if a.Uint() != b.Uint() {
-			return fmt.Sprintf("%s: %d vs %d", path, a.Uint(), b.Uint())
+			return t.say(path, "%d vs %d", a.Uint(), b.Uint())
 		}
 	case reflect.Float32, reflect.Float64:
 		if a.Float() != b.Float() {
-			return fmt.Sprintf("%s: %v vs %v", path, a.Float(), b.Float())
+			return t.say(path, "%v vs %v", a.Float(), b.Float())
 		}
 	case reflect.Func, reflect.Chan, reflect.UnsafePointer:
 		if a.Pointer() != b.Pointer() {
-			return path + ": different reference"
+			return t.say(path, "different reference")
 		}
 	}
 	return ""
